@@ -1821,4 +1821,299 @@ Proof.
     cbn [map xs_is_point_int_from es_is_point_int_from]. rewrite itv_count_int_epi, IH. reflexivity.
 Qed.
 
+(* ------------------------------------------------------------------ set level: the count is a cardinality *)
+Lemma cross_lt_le a b c da db dc : 0 < da -> 0 < db -> 0 < dc ->
+  a * db < b * da -> b * dc <= c * db -> a * dc < c * da.
+Proof.
+  intros Ha Hb Hc H1 H2.
+  assert (P1 : a * db * dc < b * da * dc) by (apply Z.mul_lt_mono_pos_r; lia).
+  assert (P2 : b * dc * da <= c * db * da) by (apply Z.mul_le_mono_nonneg_r; lia).
+  apply (Z.mul_lt_mono_pos_r db); [lia|].
+  replace (a * dc * db) with (a * db * dc) by ring. replace (c * da * db) with (c * db * da) by ring.
+  replace (b * da * dc) with (b * dc * da) in P1 by ring. lia.
+Qed.
+Lemma cross_le_lt a b c da db dc : 0 < da -> 0 < db -> 0 < dc ->
+  a * db <= b * da -> b * dc < c * db -> a * dc < c * da.
+Proof.
+  intros Ha Hb Hc H1 H2.
+  assert (P1 : a * db * dc <= b * da * dc) by (apply Z.mul_le_mono_nonneg_r; lia).
+  assert (P2 : b * dc * da < c * db * da) by (apply Z.mul_lt_mono_pos_r; lia).
+  apply (Z.mul_lt_mono_pos_r db); [lia|].
+  replace (a * dc * db) with (a * db * dc) by ring. replace (c * da * db) with (c * db * da) by ring.
+  replace (b * da * dc) with (b * dc * da) in P1 by ring. lia.
+Qed.
+
+Definition xq_pos (x : xq) : Prop := match x with XQFin q => 0 < snd q | _ => True end.
+Lemma xq_ok_pos x : xq_ok x -> xq_pos x.
+Proof. destruct x as [|q|]; cbn; tauto. Qed.
+Lemma zq_pos z : xq_pos (zq z).
+Proof. cbn. lia. Qed.
+Lemma xq_cmp_refl x : xq_cmp x x = Eq.
+Proof. destruct x as [|[n d]|]; cbn; auto. apply Z.compare_refl. Qed.
+
+Lemma xq_lt_le_trans x y z : xq_pos x -> xq_pos y -> xq_pos z ->
+  xq_cmp x y = Lt -> xq_cmp y z <> Gt -> xq_cmp x z = Lt.
+Proof.
+  destruct x as [|[a da]|], y as [|[b db]|], z as [|[c dc]|]; cbn; intros Px Py Pz H1 H2;
+    try reflexivity; try discriminate; try congruence.
+  rewrite Z.compare_lt_iff in *. rewrite Z.compare_gt_iff in H2. apply (cross_lt_le a b c da db dc); auto; lia.
+Qed.
+Lemma xq_le_lt_trans x y z : xq_pos x -> xq_pos y -> xq_pos z ->
+  xq_cmp x y <> Gt -> xq_cmp y z = Lt -> xq_cmp x z = Lt.
+Proof.
+  destruct x as [|[a da]|], y as [|[b db]|], z as [|[c dc]|]; cbn; intros Px Py Pz H1 H2;
+    try reflexivity; try discriminate; try congruence.
+  rewrite Z.compare_lt_iff in *. rewrite Z.compare_gt_iff in H1. apply (cross_le_lt a b c da db dc); auto; lia.
+Qed.
+
+(* X lies to the left of Y (no common value) *)
+Definition xbelow (X Y : itv xq) : Prop :=
+  xq_cmp (get_ub X) (ia Y) = Lt \/ (xq_cmp (get_ub X) (ia Y) = Eq /\ ib_open X = true /\ ia_open Y = true).
+
+Lemma WFx_ub_ok X : WFx X -> xq_pos (ia X) /\ xq_pos (get_ub X) /\ xq_cmp (ia X) (get_ub X) <> Gt.
+Proof.
+  intros (W & Oa & Ob & _). unfold get_ub, WF, lt in *. destruct (ipt X).
+  - repeat split; auto using xq_ok_pos. rewrite xq_cmp_refl. discriminate.
+  - repeat split; auto using xq_ok_pos. rewrite W. discriminate.
+Qed.
+
+Lemma NF_xbelow : forall t X, NF xq_cmp (X :: t) -> Forall WFx (X :: t) -> forall Y, In Y t -> xbelow X Y.
+Proof.
+  induction t as [|X1 t' IH]; intros X N F Y HY; [destruct HY|].
+  inversion F as [|? ? WX F1]; subst. inversion F1 as [|? ? WX1 F2]; subst.
+  destruct N as (_ & S & N1).
+  assert (B1 : xbelow X X1).
+  { destruct S as [S|(S & O1 & O2)]; [left; exact S|]. right. rewrite S, xq_cmp_refl. auto. }
+  destruct HY as [<-|HY]; [exact B1|].
+  pose proof (IH X1 N1 F1 Y HY) as B2.
+  destruct (WFx_ub_ok X WX) as (_ & PuX & _). destruct (WFx_ub_ok X1 WX1) as (PaX1 & PuX1 & LE1).
+  assert (PY : xq_pos (ia Y)).
+  { rewrite Forall_forall in F2. destruct (F2 Y HY) as (_ & Oa & _). apply xq_ok_pos; auto. }
+  left.
+  (* ub X < ub X1 *)
+  assert (L1 : xq_cmp (get_ub X) (get_ub X1) = Lt).
+  { destruct B1 as [B1|(B1 & _ & O2)].
+    - apply (xq_lt_le_trans (get_ub X) (ia X1) (get_ub X1)); auto.
+    - (* X1 is open at its lower end, hence not a point: ia X1 < ub X1 *)
+      destruct WX1 as (W1 & _). unfold WF, lt in W1. unfold get_ub in *. destruct (ipt X1).
+      + destruct W1 as (K & _). congruence.
+      + apply (xq_le_lt_trans (if ipt X then ia X else ib X) (ia X1) (ib X1)); auto. congruence. }
+  apply (xq_lt_le_trans (get_ub X) (get_ub X1) (ia Y)); auto. destruct B2 as [B2|(B2 & _)]; congruence.
+Qed.
+
+Lemma xbelow_disjoint X Y z : WFx X -> WFx Y -> xbelow X Y -> int_mem z X -> int_mem z Y -> False.
+Proof.
+  intros WX WY B (_ & U) (Lo & _).
+  destruct (WFx_ub_ok X WX) as (_ & PuX & _). destruct (WFx_ub_ok Y WY) as (PaY & _ & _).
+  pose proof (zq_pos z) as Pz. unfold lt, le in *.
+  assert (K : xq_cmp (zq z) (zq z) = Lt); [|rewrite xq_cmp_refl in K; discriminate].
+  destruct B as [B|(B & O1 & O2)].
+  - assert (A : xq_cmp (zq z) (ia Y) = Lt).
+    { apply (xq_le_lt_trans (zq z) (get_ub X) (ia Y)); auto. destruct (ib_open X); congruence. }
+    apply (xq_lt_le_trans (zq z) (ia Y) (zq z)); auto. destruct (ia_open Y); congruence.
+  - rewrite O1 in U. rewrite O2 in Lo.
+    assert (A : xq_cmp (zq z) (ia Y) = Lt) by (apply (xq_lt_le_trans (zq z) (get_ub X) (ia Y)); auto; congruence).
+    apply (xq_lt_le_trans (zq z) (ia Y) (zq z)); auto. congruence.
+Qed.
+
+(* a block of consecutive integers *)
+Definition zrange (lo : Z) (n : nat) : list Z := map (fun i => lo + Z.of_nat i) (seq 0 n).
+Lemma zrange_In lo n z : In z (zrange lo n) <-> lo <= z < lo + Z.of_nat n.
+Proof.
+  unfold zrange. rewrite in_map_iff. split.
+  - intros (i & <- & Hi). apply in_seq in Hi. lia.
+  - intros H. exists (Z.to_nat (z - lo)). split; [lia|]. apply in_seq. lia.
+Qed.
+Lemma zrange_length lo n : length (zrange lo n) = n.
+Proof. unfold zrange. rewrite map_length, seq_length. reflexivity. Qed.
+Lemma zrange_NoDup lo n : NoDup (zrange lo n).
+Proof.
+  unfold zrange. apply FinFun.Injective_map_NoDup; [|apply seq_NoDup]. intros i j H. lia.
+Qed.
+
+Lemma NoDup_app_disjoint {A : Type} (l1 l2 : list A) :
+  NoDup l1 -> NoDup l2 -> (forall x, In x l1 -> In x l2 -> False) -> NoDup (l1 ++ l2).
+Proof.
+  induction l1 as [|a l1 IH]; intros N1 N2 D; [exact N2|]. inversion N1; subst. cbn. constructor.
+  - intro K. apply in_app_or in K. destruct K as [K|K]; [auto|]. apply (D a); [left; auto|exact K].
+  - apply IH; auto. intros x H1 H2'. apply (D x); [right; auto|auto].
+Qed.
+
+Lemma In_firstn' {A : Type} (x : A) : forall n l, In x (firstn n l) -> In x l.
+Proof.
+  induction n as [|n IH]; intros l H; [destruct H|]. destruct l as [|a l]; [destruct H|].
+  cbn in H. destruct H as [H|H]; [left; exact H|right; apply IH; exact H].
+Qed.
+Lemma NoDup_firstn' {A : Type} : forall n (l : list A), NoDup l -> NoDup (firstn n l).
+Proof.
+  induction n as [|n IH]; intros l N; [constructor|]. destruct l as [|a l]; [constructor|].
+  inversion N as [|? ? Na Nl]; subst. cbn. constructor; [|apply IH; exact Nl].
+  intro K. apply Na. eapply In_firstn'; eauto.
+Qed.
+
+(* exact enumeration when no interval saturates *)
+Lemma count_enumeration : forall s, NF xq_cmp s -> Forall WFx s ->
+  Forall (fun X => itv_count_int X < LONG_MAX) s ->
+  exists l, NoDup l /\ (forall z, In z l <-> int_mem_set z s) /\ Z.of_nat (length l) = sum_counts s.
+Proof.
+  induction s as [|X t IH]; intros N F C.
+  - exists []. split; [constructor|]. split; [|reflexivity]. intro z. split; [intros []|intros (Y & [] & _)].
+  - inversion F as [|? ? WX Ft]; subst. inversion C as [|? ? CX Ct]; subst.
+    destruct (IH (proj2 (proj2 N)) Ft Ct) as (l & Nl & Ml & Ll).
+    destruct (itv_count_int_spec X WX) as (R & EX & _). destruct (EX CX) as (lo & Hlo).
+    exists (zrange lo (Z.to_nat (itv_count_int X)) ++ l). split; [|split].
+    + apply NoDup_app_disjoint; [apply zrange_NoDup|exact Nl|].
+      intros z H1 H2'. apply zrange_In in H1. rewrite Z2Nat.id in H1 by lia. apply Hlo in H1.
+      apply Ml in H2'. destruct H2' as (Y & HY & MY).
+      rewrite Forall_forall in Ft.
+      exact (xbelow_disjoint X Y z WX (Ft Y HY) (NF_xbelow t X N F Y HY) H1 MY).
+    + intro z. rewrite in_app_iff, zrange_In, Z2Nat.id by lia. rewrite <- Hlo, Ml. unfold int_mem_set, mem_set. split.
+      * intros [H|(Y & HY & MY)]; [exists X; split; [left; auto|exact H] | exists Y; split; [right; auto|exact MY]].
+      * intros (Y & [<-|HY] & MY); [left; exact MY | right; exists Y; auto].
+    + rewrite app_length, zrange_length, Nat2Z.inj_add, Z2Nat.id, Ll by lia. reflexivity.
+Qed.
+
+Lemma sum_counts_bound s : Forall WFx s -> Forall (fun X => itv_count_int X <= sum_counts s) s.
+Proof.
+  induction s as [|X t IH]; intro F; [constructor|]. inversion F as [|? ? WX Ft]; subst.
+  pose proof (sum_counts_nonneg t Ft) as SN. pose proof (itv_count_int_spec X WX) as (R & _).
+  cbn [sum_counts fold_right]. fold (sum_counts t). constructor; [lia|].
+  specialize (IH Ft). rewrite Forall_forall in *. intros Y HY. specialize (IH Y HY). lia.
+Qed.
+
+(* lp_feasibility_set_count_int below LONG_MAX is the number of integers in the set *)
+Theorem xs_count_int_card s : NF xq_cmp s -> Forall WFx s -> xs_count_int s < LONG_MAX ->
+  exists l, NoDup l /\ (forall z, In z l <-> int_mem_set z s) /\ Z.of_nat (length l) = xs_count_int s.
+Proof.
+  intros N F C. destruct (xs_count_int_sum s F) as (_ & E & _). specialize (E C). rewrite E in *.
+  apply count_enumeration; auto.
+  pose proof (sum_counts_bound s F) as B. rewrite Forall_forall in *. intros X HX. specialize (B X HX). lia.
+Qed.
+
+(* LONG_MAX means: at least LONG_MAX integers in the set *)
+Theorem xs_count_int_saturated s : NF xq_cmp s -> Forall WFx s -> xs_count_int s = LONG_MAX ->
+  exists l, NoDup l /\ (forall z, In z l -> int_mem_set z s) /\ Z.of_nat (length l) = LONG_MAX.
+Proof.
+  intros N F C. destruct (xs_count_int_sum s F) as (_ & _ & E). specialize (E C).
+  assert (LM : 0 <= LONG_MAX) by (unfold LONG_MAX; lia).
+  destruct (Forall_Exists_dec (fun X => itv_count_int X < LONG_MAX) (fun X => Z_lt_dec (itv_count_int X) LONG_MAX) s) as [A|A].
+  - destruct (count_enumeration s N F A) as (l & Nl & Ml & Ll).
+    exists (firstn (Z.to_nat LONG_MAX) l). split; [|split].
+    + apply NoDup_firstn'. exact Nl.
+    + intros z Hz. apply Ml. eapply In_firstn'; eauto.
+    + rewrite firstn_length. lia.
+  - apply Exists_exists in A. destruct A as (X & HX & CX).
+    rewrite Forall_forall in F. pose proof (F X HX) as WX.
+    destruct (itv_count_int_spec X WX) as (R & _ & SAT).
+    assert (EX : itv_count_int X = LONG_MAX) by lia.
+    destruct (SAT EX) as (lo & Hlo).
+    exists (zrange lo (Z.to_nat LONG_MAX)). split; [apply zrange_NoDup|]. split.
+    + intros z Hz. apply zrange_In in Hz. rewrite Z2Nat.id in Hz by lia. exists X. split; [exact HX|apply Hlo; exact Hz].
+    + rewrite zrange_length, Z2Nat.id by lia. reflexivity.
+Qed.
+
+(* an infinite end makes the count LONG_MAX *)
+Lemma itv_count_int_infinite X : WFx X -> (ia X = XQMinf \/ ib X = XQPinf) -> itv_count_int X = LONG_MAX.
+Proof.
+  destruct X as [a b ao bo p]. unfold WFx, WF; cbn [ia ib ia_open ib_open ipt]. intros (W & _ & _ & Fp) [E|E]; subst.
+  - reflexivity.
+  - unfold itv_count_int; cbn [ia ib ia_open ib_open ipt]. destruct a as [|qa|]; [reflexivity| |reflexivity].
+    cbn [xq_is_infinity]. destruct p; [|reflexivity]. destruct W as (_ & _ & K). discriminate K.
+Qed.
+
+Theorem xs_count_int_infinite s : Forall WFx s -> (exists X, In X s /\ (ia X = XQMinf \/ ib X = XQPinf)) ->
+  xs_count_int s = LONG_MAX.
+Proof.
+  intros F (X & HX & E).
+  assert (LM : LONG_MAX = 9223372036854775807) by reflexivity.
+  destruct (xs_count_int_sum s F) as (R & EQ & _).
+  destruct (Z_lt_dec (xs_count_int s) LONG_MAX) as [C|C]; [exfalso|lia].
+  specialize (EQ C). pose proof (sum_counts_bound s F) as B. rewrite Forall_forall in *.
+  specialize (B X HX). rewrite (itv_count_int_infinite X (F X HX) E) in B. lia.
+Qed.
+
+(* lp_feasibility_set_is_point_int: exactly one integer in the set *)
+Theorem xs_is_point_int_card s : NF xq_cmp s -> Forall WFx s ->
+  (xs_is_point_int s = true <-> exists z, int_mem_set z s /\ forall z', int_mem_set z' s -> z' = z).
+Proof.
+  intros N F. rewrite (xs_is_point_int_sum s F).
+  assert (LM : LONG_MAX = 9223372036854775807) by reflexivity.
+  pose proof (sum_counts_bound s F) as B.
+  split.
+  - intro E.
+    assert (A : Forall (fun X => itv_count_int X < LONG_MAX) s).
+    { rewrite Forall_forall in *. intros X HX. specialize (B X HX). lia. }
+    destruct (count_enumeration s N F A) as (l & Nl & Ml & Ll). rewrite E in Ll.
+    destruct l as [|z [|z2 l']]; cbn in Ll; try lia.
+    exists z. split; [apply Ml; left; auto|]. intros z' Hz'. apply Ml in Hz'. destruct Hz' as [<-|[]]. reflexivity.
+  - intros (z & Hz & U).
+    destruct (Forall_Exists_dec (fun X => itv_count_int X < LONG_MAX) (fun X => Z_lt_dec (itv_count_int X) LONG_MAX) s) as [A|A].
+    + destruct (count_enumeration s N F A) as (l & Nl & Ml & Ll). rewrite <- Ll.
+      destruct l as [|a [|b l']].
+      * exfalso. apply Ml in Hz. destruct Hz.
+      * reflexivity.
+      * exfalso. inversion Nl as [|? ? NA _]; subst. apply NA.
+        assert (a = z) by (apply U; apply Ml; left; auto).
+        assert (b = z) by (apply U; apply Ml; right; left; auto). subst. left. reflexivity.
+    + exfalso. apply Exists_exists in A. destruct A as (X & HX & CX).
+      rewrite Forall_forall in F. pose proof (F X HX) as WX.
+      destruct (itv_count_int_spec X WX) as (R & _ & SAT).
+      assert (EX : itv_count_int X = LONG_MAX) by lia.
+      destruct (SAT EX) as (lo & Hlo).
+      assert (M1 : int_mem_set lo s) by (exists X; split; auto; apply Hlo; lia).
+      assert (M2 : int_mem_set (lo + 1) s) by (exists X; split; auto; apply Hlo; lia).
+      apply U in M1, M2. lia.
+Qed.
+
+(* ------------------------------------------------------------------ the integer queries on views (any kind of end point) *)
+Theorem ei_contains_int_core X : view_wf X -> (ei_contains_int X = true <-> exists z, ei_mem z X).
+Proof.
+  destruct X as [a b ao bo p]. unfold view_wf, ei_contains_int, ei_mem; cbn [ia ib ia_open ib_open ipt].
+  destruct a as [|ba fa ca], b as [|bb fb cb], p;
+    cbn [epi_wf epi_is_infinity epi_is_integer epi_floor epi_ceiling epi_low epi_up]; intros (Wa & Wb & W).
+  - destruct W as (_ & _ & K); congruence.
+  - split; [intros _; exists 0; tauto|reflexivity].
+  - destruct W as (_ & _ & K); congruence.
+  - split; [intros _|reflexivity]. exists (if bb then fb - (if bo then 1 else 0) else fb). split; [exact I|lia].
+  - destruct W as (-> & -> & _). destruct ba; cbn; split; intro K; try reflexivity; try discriminate.
+    + exists fa. lia. + destruct K as (z & K). lia.
+  - destruct ao, ba; cbn; (split; [intros _|try reflexivity]);
+      try (exists (fa + 1); lia); try (exists fa; lia); try (exists ca; lia).
+  - destruct W as (-> & -> & _). destruct ba; cbn; split; intro K; try reflexivity; try discriminate.
+    + exists fa. lia. + destruct K as (z & K). lia.
+  - destruct ao, bo, ba, bb; cbn in *; rewrite ?Z.geb_le;
+      (split; [intro K | intros (z & K); try reflexivity; lia]);
+      try (exists (fa + 1); lia); try (exists fa; lia); try (exists ca; lia).
+Qed.
+
+Theorem ei_count_int_core X : view_wf X ->
+  0 <= ei_count_int X <= LONG_MAX /\
+  (ei_count_int X < LONG_MAX -> exists lo, forall z, ei_mem z X <-> lo <= z < lo + ei_count_int X) /\
+  (ei_count_int X = LONG_MAX -> exists lo, forall z, lo <= z < lo + LONG_MAX -> ei_mem z X).
+Proof.
+  destruct X as [a b ao bo p]. unfold view_wf, ei_count_int, ei_mem, fits_int; cbn [ia ib ia_open ib_open ipt].
+  assert (LM : LONG_MAX = 9223372036854775807) by reflexivity.
+  assert (LMn : LONG_MIN = -9223372036854775808) by reflexivity.
+  destruct a as [|ba fa ca], b as [|bb fb cb], p;
+    cbn [epi_wf epi_is_infinity epi_is_integer epi_floor epi_ceiling epi_low epi_up]; intros (Wa & Wb & W).
+  - destruct W as (_ & _ & K); congruence.
+  - split; [lia|]. split; [lia|]. intros _. exists 0. tauto.
+  - destruct W as (_ & _ & K); congruence.
+  - split; [lia|]. split; [lia|]. intros _.
+    exists ((if bb then fb - (if bo then 1 else 0) else fb) - LONG_MAX). intros z Hz. split; [exact I|lia].
+  - destruct W as (-> & -> & _). destruct ba; cbn; (split; [lia|]); (split; [|lia]); intros _.
+    + exists fa. intro z. lia. + exists 0. intro z. lia.
+  - split; [lia|]. split; [lia|]. intros _.
+    exists (if ba then fa + (if ao then 1 else 0) else ca). intros z Hz. split; [lia|exact I].
+  - destruct W as (-> & -> & _). destruct ba; cbn; (split; [lia|]); (split; [|lia]); intros _.
+    + exists fa. intro z. lia. + exists 0. intro z. lia.
+  - destruct ao, bo, ba, bb; cbn [negb andb] in *;
+      repeat match goal with
+             | |- context [Z.leb ?x ?y] => destruct (Z.leb_spec x y)
+             | |- context [Z.geb ?x ?y] => rewrite (Z.geb_leb x y)
+             end; cbn [andb];
+      (split; [lia|]); (split; [intro C; try lia | intro C; try lia]);
+      try (exists (fa + 1); intro z; lia); try (exists fa; intro z; lia); try (exists ca; intro z; lia).
+Qed.
+
 End IntOps.
